@@ -1,7 +1,8 @@
 (* group_items partitions the features exactly as share_spec says, for every iteration order (C15). *)
-From Coq Require Import List Bool Arith Lia.
+From Coq Require Import List Bool Arith Lia ZArith String.
 Import ListNotations.
 Require Import MV.Model.Options MV.Model.Identity MV.Model.Grouping MV.Spec.GroupingSpec.
+Local Open Scope nat_scope.
 
 Lemma oty_eqb_eq : forall a b, oty_eqb a b = true <-> a = b.
 Proof.
@@ -464,4 +465,66 @@ Proof.
   split; [reflexivity | split; [reflexivity | split]].
   - intros H. apply (grouping_spec_l [amb_t1; amb_t2; amb_u] amb_u amb_t2) in H; [discriminate H | cbn; auto | cbn; auto].
   - apply (grouping_spec_l [amb_t2; amb_t1; amb_u] amb_u amb_t2); [cbn; auto | cbn; auto | reflexivity].
+Qed.
+
+(* ---------- hash classes vs equality of options ---------- *)
+Require Import MV.Spec.OptionsSpec MV.Proofs.CanonP.
+Local Open Scope nat_scope.
+
+(* features with equal (group options, frameworks) are in the same hash class ... *)
+Lemma equal_options_same_class_l : forall a b,
+  wfv (VDict (g_group a)) -> wfv (VDict (g_group b)) -> nofs (VDict (g_group a)) -> nofs (VDict (g_group b)) ->
+  hash_key (VDict (g_group a)) <> None -> hash_key (VDict (g_group b)) <> None ->
+  opts_agree a b = true -> base_eqb a b = true.
+Proof.
+  intros a b Wa Wb Na Nb Ha Hb H. unfold opts_agree in H. apply andb_true_iff in H. destruct H as [H1 H2].
+  unfold base_eqb. destruct (hash_key (VDict (g_group a))) as [x|] eqn:Ea; [|congruence].
+  destruct (hash_key (VDict (g_group b))) as [y|] eqn:Eb; [|congruence].
+  rewrite (hash_key_respects_eq_l _ _ x y Wa Wb Na Nb H1 Ea Eb), H2. reflexivity.
+Qed.
+
+(* ... but not conversely: a list and a tuple with the same elements *)
+Definition hc_a : gfeat := {| g_id := 0; g_group := [(KStr "c", VList [VInt 1%Z; VInt 2%Z])]; g_ctx := []; g_cfw := None; g_ty := Some 1 |}.
+Definition hc_b : gfeat := {| g_id := 1; g_group := [(KStr "c", VTuple [VInt 1%Z; VInt 2%Z])]; g_ctx := []; g_cfw := None; g_ty := Some 1 |}.
+Lemma hash_conflation_refuted_l :
+  opts_agree hc_a hc_b = false /\ base_eqb hc_a hc_b = true /\ kf_hash_conflation [hc_a; hc_b] = true /\
+  group_features [hc_a; hc_b] = [[0; 1]].
+Proof. repeat split. Qed.
+
+(* when the hash-class relation is an equivalence on the request (it is: equality of hash integers), the class index
+   of two features is the same iff they are related *)
+Lemma first_idx_lt : forall A (p : A -> bool) l x, In x l -> p x = true -> first_idx p l < List.length l.
+Proof.
+  intros A p l x; induction l as [|y t IH]; cbn; intros Hin Hp; [destruct Hin|].
+  destruct (p y) eqn:E; [lia|]. destruct Hin as [->|Hin]; [congruence|]. specialize (IH Hin Hp). lia.
+Qed.
+Lemma first_idx_nth : forall A (p : A -> bool) l d, first_idx p l < List.length l -> p (nth (first_idx p l) l d) = true.
+Proof.
+  intros A p l d; induction l as [|y t IH]; cbn; intros H; [lia|].
+  destruct (p y) eqn:E; [exact E|]. apply IH. lia.
+Qed.
+Lemma first_idx_ext : forall A (p q : A -> bool) l, (forall x, In x l -> p x = q x) -> first_idx p l = first_idx q l.
+Proof.
+  intros A p q l; induction l as [|y t IH]; cbn; intros H; [reflexivity|].
+  rewrite (H y (or_introl eq_refl)). destruct (q y); [reflexivity|]. f_equal. apply IH. intros x Hx. apply H. right. exact Hx.
+Qed.
+
+Lemma base_class_iff_l : forall fs a b,
+  (forall x, In x fs -> base_eqb x x = true) ->
+  (forall x y, In x fs -> In y fs -> base_eqb x y = true -> base_eqb y x = true) ->
+  (forall x y z, In x fs -> In y fs -> In z fs -> base_eqb x y = true -> base_eqb y z = true -> base_eqb x z = true) ->
+  In a fs -> In b fs -> (base_class fs a = base_class fs b <-> base_eqb a b = true).
+Proof.
+  intros fs a b Hr Hs Ht Ha Hb. unfold base_class. split.
+  - intros H. pose proof (first_idx_lt _ (fun y => base_eqb y a) fs a Ha (Hr a Ha)) as Hlt.
+    pose proof (first_idx_nth _ (fun y => base_eqb y a) fs a Hlt) as H1. cbv beta in H1.
+    pose proof Hlt as Hlt'. rewrite H in Hlt'.
+    pose proof (first_idx_nth _ (fun y => base_eqb y b) fs a Hlt') as H2. cbv beta in H2. rewrite <- H in H2.
+    set (r := nth (first_idx (fun y => base_eqb y a) fs) fs a) in *.
+    assert (Hin : In r fs) by (apply nth_In; exact Hlt).
+    apply (Ht a r b Ha Hin Hb); [apply Hs; assumption | exact H2].
+  - intros H. apply first_idx_ext. intros x Hx. cbv beta.
+    destruct (base_eqb x a) eqn:E1, (base_eqb x b) eqn:E2; try reflexivity.
+    + rewrite (Ht x a b Hx Ha Hb E1 H) in E2. discriminate.
+    + rewrite (Ht x b a Hx Hb Ha E2 (Hs a b Ha Hb H)) in E1. discriminate.
 Qed.
